@@ -325,6 +325,30 @@ theorem leavable_expression_survives :
     transformVar "u" true none (some (.expr (.leave "counter++"))) =
       .ok { name := "u", ty := none, init := .kept "counter++" } := by rfl
 
+/-- **an auto-accessor keeps its public signature**: it becomes a declared property of the same
+name, staticness and accessibility that has a type (its annotation, a type inferred from a
+literal-like initial value, `any` when private) and no value — or a diagnostic is raised -/
+theorem accessor_typed (name : String) (access : Access) (isStatic : Bool) (ty : Option Ty) (init : Option Expr)
+    (seen : List String) :
+    transformMember (.accessor name access isStatic ty init) seen = .error .missingType ∨
+    ∃ t, transformMember (.accessor name access isStatic ty init) seen =
+      .ok ([], some (.prop name access isStatic false true false (some t) .dropped)) := by
+  by_cases hp : access = .priv
+  · right
+    subst hp
+    exact ⟨"any", by simp [transformMember]⟩
+  · cases ty with
+    | some t => right; exact ⟨t, by simp [transformMember, hp]⟩
+    | none =>
+      cases hi : init.bind fun e => inferType e .mutable with
+      | none => left; simp [transformMember, hp, hi]
+      | some t => right; exact ⟨t, by simp [transformMember, hp, hi]⟩
+
+/-- an untyped public auto-accessor whose initial value has no inferable type is reported -/
+theorem untyped_accessor_is_diagnostic (name : String) (isStatic : Bool) (seen : List String) :
+    transformMember (.accessor name .pub isStatic none (some .opaque)) seen = .error .missingType := by
+  simp [transformMember, inferType]
+
 /-! non-vacuity: `function f(a: number, b = "x", ...r: string[]) { }` -/
 example :
     transformFn { params := [{ name := "a", opt := false, rest := false, ty := some "number", dflt := none },
